@@ -152,14 +152,14 @@ func main() {
 	wg.Wait()
 	fr.mergeInto(c)
 
-	// floor: round-trip matrix alone is > 2000 distinct cases in the quick tier; handshake adds > 1500
+	// floor: about half of what the two parts produce (quick ~55k, thorough ~740k distinct judged cases)
 	c.Finish("framing: for every generated stream an independent decoder fixes, per ReadMsg call, either the exact message "+
 		"(sub-protocol, timestamp, id, original id, payload) or 'error'; the real V030ReadWriter must agree, must not panic, and "+
 		"TotalAlloc delta around each ReadMsg must be <= MaxPayloadLength+64KiB. handshake: honest pairs (real code on both ends, "+
 		"and captured honest status replayed) must succeed on both ends with Meta.ID = connection identity; a status that differs "+
 		"in exactly one NAMED field (genesis, chain id component, sender peer id) or a connection identity that differs from the "+
 		"presented one must make the checking side return an error; unnamed fields: outcome only counted.",
-		c.Pick(3000, 6000),
+		c.Pick(25000, 250000),
 		"the 48-byte big-endian header layout (sub-protocol, length, timestamp, id, original id) named in the property record is the wire format",
 		"'compatible chain identifier' = same magic, consensus, public and mainnet flags, and version equal to the local hardfork version at the height the remote announces",
 		"stub VersionedManager reproduces ChainService.ChainID (genesis id with Version=HardforkConfig.Version(height)) with the real config.HardforkConfig",
